@@ -297,3 +297,5 @@ func DistinctSyms(bs ...[]byte) {
 		}
 	}
 }
+
+func osMkdirAll(p string) error { return os.MkdirAll(p, 0o755) }
